@@ -763,4 +763,66 @@ panic = "abort"
             "Unexpected startup code: {}",
             code
         )))},'''),
+    # ------------------------------------------------------------------ C03
+    dict(id="c03-consume-before-copy", prop="C03", file="src/server.rs", expect="C03-R2",
+         what="recv reads the code byte before copying the message",
+         old='''            // Buffer the message we'll forward to the client later.
+            self.buffer.put(&message[..]);
+
+            let code = message.get_u8() as char;''', new='''            let code = message.get_u8() as char;
+            // Buffer the message we'll forward to the client later.
+            self.buffer.put(&message[..]);
+'''),
+    dict(id="c03-truncate-response", prop="C03", file="src/client.rs", expect="C03-R",
+         what="reply chunk truncated before forwarding",
+         old='''            let response = self
+                .receive_server_message(server, address, pool, client_stats)
+                .await?;
+
+            match write_all_flush(&mut self.write, &response).await {''',
+         new='''            let mut response = self
+                .receive_server_message(server, address, pool, client_stats)
+                .await?;
+            response.truncate(8196);
+
+            match write_all_flush(&mut self.write, &response).await {'''),
+    dict(id="c03-first-chunk-only", prop="C03", file="src/client.rs", expect="C03-R4",
+         what="forward loop stops after the first chunk",
+         old='''            if !server.is_data_available() {
+                break;
+            }
+        }
+
+        // Report query executed statistics.''', new='''            if !server.is_data_available() || true {
+                break;
+            }
+        }
+
+        // Report query executed statistics.'''),
+    dict(id="c03-command-complete-clears", prop="C03", file="src/server.rs", expect="C03-R4",
+         what="CommandComplete clears data_available",
+         old='''                // CommandComplete
+                'C' => {
+                    if self.in_copy_mode {
+                        self.in_copy_mode = false;
+                    }
+''', new='''                // CommandComplete
+                'C' => {
+                    if self.in_copy_mode {
+                        self.in_copy_mode = false;
+                    }
+                    self.data_available = false;
+'''),
+    dict(id="c03-clear-before-send", prop="C03", file="src/client.rs", expect="C03-R5",
+         what="Client.buffer cleared before the batch is sent",
+         old='''                        if should_send_to_server {
+                            self.send_and_receive_loop(''', new='''                        if self.buffer.len() > 1 << 20 { self.buffer.clear(); }
+                        if should_send_to_server {
+                            self.send_and_receive_loop('''),
+    dict(id="c03-datarow-no-flag", prop="C03", file="src/server.rs", expect="C03-R4",
+         what="DataRow no longer marks more data available",
+         old='''                    // More data is available after this message, this is not the end of the reply.
+                    self.data_available = true;
+''', new='''                    // More data is available after this message, this is not the end of the reply.
+'''),
 ]
